@@ -366,21 +366,21 @@ with restrict_l (e : env) (k : nkey) (l : vlist) : vlist :=
 (* ------------------------------------------------------------ generated server *)
 
 (* what leaves the server: the goa-view header (absent when the view is fixed in the
-   design) and the body; or nothing at all (handler panic, connection closed) *)
-Inductive sresp := SResp (hdr : option name) (body : val) | SPanic.
+   design) and the body; a fault (error response 500) when the endpoint refuses the view name
+   the service method returned; or nothing at all (handler panic, connection closed) *)
+Inductive sresp := SResp (hdr : option name) (body : val) | SFault | SPanic.
 
 (* fixed = view set in the design (Result(T, func(){ View(v) }), or a type with a single
-   view); chosen = view name returned by the service method otherwise; c = the result is
-   a collection. NewViewed<T> switches on the name with no default branch. An undefined
-   name leaves the viewed result nil: the encoder dereferences it (single result: panic,
-   connection closed) or, for a collection (a struct, not a pointer), sends the zero
-   value: header "" and an empty list. *)
+   view); chosen = view name returned by the service method otherwise. The generated
+   endpoint checks the returned name against the views of the result type ("" standing for
+   "default") and answers a fault otherwise; a fixed view is validated by the DSL (an
+   undefined one would leave the viewed result nil: the encoder dereferences it). *)
 Definition server_respond (e : env) (c : bool) (t : name) (fixed : option name) (chosen : name) (x : val) : sresp :=
   match fixed with
   | Some f => if has_view e t (norm f) then SResp None (restrict e (false, t, norm f) x) else SPanic
   | None =>
     if has_view e t (norm chosen) then SResp (Some (norm chosen)) (restrict e (false, t, norm chosen) x)
-    else if c then SResp (Some "") (VList VLNil) else SPanic
+    else SFault
   end.
 
 (* ------------------------------------------------------------ generated client *)
